@@ -533,3 +533,65 @@ def inplace_argument_obligations(model, rep, fns, clause, rule="PUREARG", throug
                "; ".join(e.describe() for e in kept[:2]), node=(kept[0].node if kept else fn.node), fn=(kept[0].fn if kept else fn), clause=clause,
                stmt=(None if kept else f"def {fn.name} array arguments"))
     return n
+
+
+# ----------------------------------------------------------------------------------------------------------------------------------------------------------
+# VIEW - in-place update of a view
+
+
+def view_update_obligations(model, rep, fns, clause, rule="VIEW"):
+    """`v = X[i, j]` with integer / slice indices is a numpy *view* of X.  `v += ...` (or `-=`, `*=`, `/=`) then changes X as well.  When X is read again afterwards
+    the later computation sees the modified data (`avg = halves[0, 0]; avg += halves[0, 1]` turns the first half map into the sum of both before the FSC).
+    Decided for arrays whose origin is known: X is a parameter annotated as an array, or the result of a call whose callee returns an array (annotation) or is a
+    numpy / backend constructor."""
+    n = 0
+    for fn in fns:
+        arr_params = set(_array_params(fn))
+        body = list(walk_no_nested(fn.node))
+        assigns = [st for st in body if isinstance(st, ast.Assign) and len(st.targets) == 1 and isinstance(st.targets[0], ast.Name)]
+
+        def is_array_name(x):
+            if x in arr_params:
+                return True
+            for st in assigns:
+                if st.targets[0].id == x and isinstance(st.value, ast.Call):
+                    d = dotted(st.value.func) or ""
+                    if d.startswith(("np.", "numpy.", "xp.", "backend.", "da.")):
+                        return True
+                    try:
+                        kind, tg = model.resolve_call(fn, st.value)
+                    except Exception:
+                        kind, tg = None, None
+                    if kind == "repo" and tg:
+                        for g in tg:
+                            r = norm_src(g.node.returns) if g.node.returns is not None else ""
+                            if "Array" in r or "ndarray" in r:
+                                return True
+            return False
+
+        def basic_index(sl):
+            elts = sl.elts if isinstance(sl, ast.Tuple) else [sl]
+            return all(isinstance(e, ast.Slice) or (isinstance(e, ast.Constant) and isinstance(e.value, int)) or
+                       (isinstance(e, ast.UnaryOp) and isinstance(e.operand, ast.Constant)) or isinstance(e, ast.Name) for e in elts)
+
+        for st in assigns:
+            v = st.value
+            if not (isinstance(v, ast.Subscript) and isinstance(v.value, ast.Name) and basic_index(v.slice)):
+                continue
+            base, view = v.value.id, st.targets[0].id
+            augs = [a for a in body if isinstance(a, ast.AugAssign) and isinstance(a.target, ast.Name) and a.target.id == view and a.lineno > st.lineno]
+            if not augs:
+                continue
+            if not is_array_name(base):
+                continue
+            first = min(augs, key=lambda a: a.lineno)
+            rebound = any(s2.targets[0].id == view and st.lineno < s2.lineno < first.lineno for s2 in assigns)
+            if rebound:
+                continue
+            n += 1
+            rep.instance(rule, fn.loc(first))
+            later = [x for x in body if isinstance(x, ast.Name) and x.id == base and isinstance(x.ctx, ast.Load) and getattr(x, "lineno", 0) > first.lineno]
+            rep.ob(rule, fn.anchor, "an array that is read again is not updated in place through a view of it", not later,
+                   f"`{view} = {norm_src(v)}` is a view of `{base}`; `{norm_src(first)}` changes `{base}` itself, which is read again at line "
+                   f"{later[0].lineno if later else '?'}", node=first, fn=fn, clause=clause)
+    return n
